@@ -2,6 +2,8 @@
   C10 — scan runs arms for the leftmost match, earlier arm first, and always advances.
   Model: `Strict.scanCollect`, `Strict.scanBest`, `Strict.scanLoop` and the lazy copies (Tsg/Sem).
   The regex matcher is a parameter (`Oracle.regexAt`).
+  Whole-loop theorems: `C10_loop_is_plan` (strict) and `C10_lazy_loop_is_plan` (lazy, from every machine state):
+  both loops execute the same plan `scanPlan`, which is computed from the regex oracle alone.
 -/
 import Tsg.Proofs.Prog
 import Tsg.Sem.Lazy
@@ -279,4 +281,212 @@ theorem C10_plan_bound_suffices (o : Oracle) (subject : String) (arms : List (St
     · subst hp; simp
 
 
+
+/-! ### the whole lazy loop -/
+
+/-- `n` polls in a row -/
+def pollN : Nat → LM Unit
+  | 0 => pure ()
+  | n + 1 => Prog.pollP "processing scan matches" >>= fun _ => pollN n
+
+/-- how many arms the lazy collection examines (one poll each) before it is done or fails -/
+def collectPolls (o : Oracle) (subject : String) (i : Nat) : List (String × List Stmt × Loc) → Nat
+  | [] => 0
+  | (re, _, _) :: rest =>
+    match o.regexAt re subject i with
+    | none => 1
+    | some none => collectPolls o subject i rest + 1
+    | some (some m) => if m.stop ≤ m.start then 1 else collectPolls o subject i rest + 1
+
+/-- the lazy collection = its polls, then the strict collection's result -/
+theorem lazyCollect_run (o : Oracle) (subject : String) (i : Nat) (arms : List (String × List Stmt × Loc)) (idx : Nat)
+    (s : Prog.MSt LSt) :
+    Prog.run (Lazy.lazyScanCollect o subject i arms idx) s =
+      Prog.run (pollN (collectPolls o subject i arms) >>= fun _ => Prog.ofExceptF (scanCollect o subject i arms idx)) s := by
+  induction arms generalizing idx s with
+  | nil => simp [Lazy.lazyScanCollect, scanCollect, collectPolls, pollN, Prog.ofExceptF, Prog.run_bind, Prog.run, pure]
+  | cons arm rest ih =>
+    obtain ⟨re, body, loc⟩ := arm
+    simp only [Lazy.lazyScanCollect, scanCollect, collectPolls]
+    cases ho : o.regexAt re subject i with
+    | none =>
+      simp only [pollN, Prog.run_bind]
+      cases Prog.run (Prog.pollP "processing scan matches" : LM Unit) s with
+      | ok a s1 => simp [Prog.failP, Prog.ofExceptF, Prog.run, pure]
+      | fail e s1 => rfl
+    | some r =>
+      cases r with
+      | none =>
+        simp only [pollN, Prog.run_bind]
+        cases Prog.run (Prog.pollP "processing scan matches" : LM Unit) s with
+        | ok a s1 =>
+          simp only
+          rw [ih (idx + 1) s1, Prog.run_bind]
+        | fail e s1 => rfl
+      | some m =>
+        simp only
+        by_cases hm : m.stop ≤ m.start
+        · simp only [hm, if_true, pollN, Prog.run_bind]
+          cases Prog.run (Prog.pollP "processing scan matches" : LM Unit) s with
+          | ok a s1 => simp [Prog.throwK, Prog.ofExceptF, Prog.run, pure]
+          | fail e s1 => rfl
+        · simp only [hm, if_false, pollN, Prog.run_bind]
+          cases Prog.run (Prog.pollP "processing scan matches" : LM Unit) s with
+          | ok a s1 =>
+            simp only
+            rw [ih (idx + 1) s1, Prog.run_bind]
+            cases Prog.run (pollN (collectPolls o subject i rest)) s1 with
+            | ok a s2 =>
+              simp only
+              cases scanCollect o subject i rest (idx + 1) <;> simp [Prog.ofExceptF, Prog.run, pure]
+            | fail e s2 => rfl
+          | fail e s1 => rfl
+
+
+/-- executing a plan lazily: the effects of the lazy loop, given the plan and the offset it starts at
+(the offset only determines how many arms each collection examines, i.e. the number of polls) -/
+def runPlanLazy (cfg : Cfg) (fuel ef : Nat) (env : Env) (arms : List (String × List Stmt × Loc)) (subject : String) :
+    Nat → ScanPlan → LM Unit
+  | _, .endOfInput => pure ()
+  | i, .noMatch => pollN (collectPolls cfg.oracle subject i arms) >>= fun _ => pure ()
+  | i, .fail f => pollN (collectPolls cfg.oracle subject i arms) >>= fun _ => Prog.failP f
+  | i, .emptyMatch => pollN (collectPolls cfg.oracle subject i arms) >>= fun _ => Prog.throwK .emptyRegexCapture
+  | i, .badArm => pollN (collectPolls cfg.oracle subject i arms) >>= fun _ => Prog.panicAt "scan:arm index"
+  | _, .outOfBound => Prog.failP .outOfFuel
+  | i, .step m k rest =>
+    pollN (collectPolls cfg.oracle subject i arms) >>= fun _ => do
+      Lazy.pushFrameL
+      Lazy.lazyBlock cfg fuel ef { env with caps := capsOf m } (.scanArm (armRegex arms k)) (armBody arms k)
+      Lazy.popFrameL
+      runPlanLazy cfg fuel ef env arms subject (i + m.stop) rest
+
+/-- **The whole lazy loop.** From every machine state (any graph, any store, any cancellation flag), the lazy scan
+loop behaves exactly as the execution of THE SAME plan as the strict loop (`scanPlan`, computed from the regex
+oracle alone): the same arms on the same matches in the same order, ending the same way; it differs only in
+polling once per examined arm instead of once per iteration. -/
+theorem C10_lazy_loop_is_plan (cfg : Cfg) (fuel ef : Nat) (env : Env) (arms : List (String × List Stmt × Loc))
+    (subject : String) (n i : Nat) (hn : subject.utf8ByteSize - i < n) (s : Prog.MSt LSt) :
+    Prog.run (Lazy.lazyScanLoop cfg fuel ef env arms subject i) s =
+      Prog.run (runPlanLazy cfg fuel ef env arms subject i (scanPlan cfg.oracle subject arms n i)) s := by
+  induction n generalizing i s with
+  | zero => omega
+  | succ n ih =>
+    by_cases hi : i < subject.utf8ByteSize
+    · rw [C10_iteration_lazy cfg fuel ef env arms subject i hi]
+      simp only [scanPlan, hi, if_true]
+      rw [Prog.run_bind, lazyCollect_run, Prog.run_bind]
+      cases hp : Prog.run (pollN (collectPolls cfg.oracle subject i arms)) s with
+      | fail e s1 =>
+        simp only
+        cases hc : scanCollect cfg.oracle subject i arms 0 with
+        | error f => simp [runPlanLazy, Prog.run_bind, hp]
+        | ok ms =>
+          simp only
+          cases hb : scanBest ms with
+          | none => simp [runPlanLazy, Prog.run_bind, hp]
+          | some p =>
+            obtain ⟨m, k⟩ := p
+            simp only
+            by_cases hk : (arms[k]?).isSome
+            · by_cases hm : 0 < m.stop <;> simp [hk, hm, runPlanLazy, Prog.run_bind, hp]
+            · simp [hk, runPlanLazy, Prog.run_bind, hp]
+      | ok u s1 =>
+        simp only
+        cases hc : scanCollect cfg.oracle subject i arms 0 with
+        | error f => simp [runPlanLazy, Prog.run_bind, hp, Prog.ofExceptF, Prog.failP, Prog.run]
+        | ok ms =>
+          simp only [Prog.ofExceptF, Prog.run]
+          cases hb : scanBest ms with
+          | none => simp [runPlanLazy, Prog.run_bind, hp]
+          | some p =>
+            obtain ⟨m, k⟩ := p
+            simp only
+            by_cases hk : (arms[k]?).isSome
+            · simp only [hk, if_true]
+              by_cases hm : 0 < m.stop
+              · simp only [hm, if_true, runPlanLazy, Prog.run_bind, hp]
+                cases Prog.run Lazy.pushFrameL s1 with
+                | fail e s2 => rfl
+                | ok _ s2 =>
+                  simp only
+                  cases Prog.run (Lazy.lazyBlock cfg fuel ef { env with caps := capsOf m } (.scanArm (armRegex arms k)) (armBody arms k)) s2 with
+                  | fail e s3 => rfl
+                  | ok _ s3 =>
+                    simp only
+                    cases Prog.run Lazy.popFrameL s3 with
+                    | fail e s4 => rfl
+                    | ok _ s4 => exact ih (i + m.stop) (by omega) s4
+              · simp [hm, runPlanLazy, Prog.run_bind, hp]
+            · simp [hk, runPlanLazy, Prog.run_bind, hp]
+    · have : Lazy.lazyScanLoop cfg fuel ef env arms subject i = pure () := by
+        rw [Lazy.lazyScanLoop]; simp [hi]
+      rw [this]
+      simp [scanPlan, hi, runPlanLazy]
+
+
+/-! ### the selected arm exists -/
+
+/-- indices recorded by the collection are indices of arms -/
+theorem C10_collected_indices_in_range (o : Oracle) (subject : String) (i : Nat) (arms : List (String × List Stmt × Loc)) (idx : Nat)
+    (ms : List (RMatch × Nat)) (h : scanCollect o subject i arms idx = .ok ms) :
+    ∀ p ∈ ms, idx ≤ p.2 ∧ p.2 < idx + arms.length := by
+  induction arms generalizing idx ms with
+  | nil => simp [scanCollect] at h; subst h; simp
+  | cons arm rest ih =>
+    obtain ⟨re, body, loc⟩ := arm
+    simp only [scanCollect] at h
+    split at h
+    · cases h
+    · intro p hp
+      have := ih (idx + 1) ms h p hp
+      simp only [List.length_cons]; omega
+    · split at h
+      · cases h
+      · split at h
+        · rename_i ms' hms
+          cases h
+          intro p hp
+          simp only [List.mem_cons] at hp
+          rcases hp with rfl | hp
+          · simp
+          · have := ih (idx + 1) ms' hms p hp
+            simp only [List.length_cons]; omega
+        · cases h
+
+/-- the `arms[index]` of the scan loops (execution.rs / lazy_execution) is in range: the selected index is the
+index of one of the arms -/
+theorem C10_selected_arm_exists (o : Oracle) (subject : String) (i : Nat) (arms : List (String × List Stmt × Loc))
+    (ms : List (RMatch × Nat)) (m : RMatch) (k : Nat)
+    (h : scanCollect o subject i arms 0 = .ok ms) (hb : scanBest ms = some (m, k)) : (arms[k]?).isSome = true := by
+  have hmem := (C10_best_is_lexmin ms (m, k) hb).1
+  have := C10_collected_indices_in_range o subject i arms 0 ms h (m, k) hmem
+  simp at this
+  simp [this]
+
+/-- the plan contains the unreachable "selected index outside the arms" leaf -/
+def ScanPlan.HasBadArm : ScanPlan → Prop
+  | .badArm => True
+  | .step _ _ r => r.HasBadArm
+  | _ => False
+
+/-- … and it never does: the `arms[index]` panic site of both scan loops is unreachable -/
+theorem C10_plan_no_bad_arm (o : Oracle) (subject : String) (arms : List (String × List Stmt × Loc)) (n i : Nat) :
+    ¬ (scanPlan o subject arms n i).HasBadArm := by
+  induction n generalizing i with
+  | zero => simp [scanPlan, ScanPlan.HasBadArm]
+  | succ n ih =>
+    simp only [scanPlan]
+    split
+    · split
+      · simp [ScanPlan.HasBadArm]
+      · rename_i ms hc
+        split
+        · simp [ScanPlan.HasBadArm]
+        · rename_i m k hb
+          have hk := C10_selected_arm_exists o subject i arms ms m k hc hb
+          simp only [hk, if_true]
+          split
+          · simp only [ScanPlan.HasBadArm]; exact ih _
+          · simp [ScanPlan.HasBadArm]
+    · simp [ScanPlan.HasBadArm]
 end C10
